@@ -258,6 +258,14 @@ class ParseModel(object):
                 self.chart = n
             elif a and a[0] == LIT(1):
                 self.goal = n
+        # the finished parses may also be collected in a bare cell (all of them span the sentence)
+        self.goal_is_cell = False
+        if self.chart and not self.goal:
+            cells = [n for n, d in locals_.items() if (d.type or '').replace('struct ', '').replace('class ', '') in ('parsing::chart::cell', 'chart::cell')]
+            if len(cells) == 1:
+                self.goal = cells[0]
+                self.goal_is_cell = True
+                self.chart_args[self.goal] = None
         if not self.chart or not self.goal:
             raise AnalysisError('%s: chart(length, ..) / goal chart(1, ..) not found' % H)
 
